@@ -15,7 +15,7 @@ spec/TraceLife.tla (trace validation).
    replayed on the REAL backend thread / Backend::stop() / log calls running on a shim atomic (tools/stopmodel.py)."""
 import json, os, random, re, signal, subprocess
 from concurrent.futures import ThreadPoolExecutor
-import vlib, stopmodel
+import vlib, stopmodel, newctxmodel
 
 SIGNUM = {"SEGV": signal.SIGSEGV.value, "ABRT": signal.SIGABRT.value, "FPE": signal.SIGFPE.value,
           "ILL": signal.SIGILL.value, "INT": signal.SIGINT.value, "TERM": signal.SIGTERM.value}
@@ -592,6 +592,8 @@ def run(ck):
     quick = ck.tier == "quick"
     rng = random.Random(ck.seed)
     stopmodel.run_for(ck)
+    # a new thread whose context the backend never picks up loses its statements at stop() (spec/NewCtxRA.tla, runs ending with stop())
+    newctxmodel.run_for(ck)
     if os.environ.get("VERIF_PART") == "model":
         return
     ck.rule = ("programs = frontend projections of seeded TLC simulation behaviours of Life (main + 2 workers, <= 3 statements "
